@@ -189,6 +189,10 @@ def _run(prop, tier, seed, n_hist, budget, batch, workers, evidence_path, t0, ev
     for v in violations:
         key = (v["verdict"]["class"], json.dumps(v["verdict"]["site"], sort_keys=True))
         if key in seen_sites:
+            try:
+                os.remove(v["replay"])   # same verdict class at the same op site: one replay file is enough
+            except OSError:
+                pass
             continue
         seen_sites[key] = 1
         if not v["confirmed"]:
